@@ -6,8 +6,8 @@ import hashlib
 import shutil
 import numpy as np
 
-VERIF = "/verif"
-REPO = "/repo"
+VERIF = os.environ.get("VERIF_HOME", "/verif")
+REPO = os.environ.get("VERIF_REPO", "/repo")
 
 
 def jsonable(x):
